@@ -133,6 +133,11 @@ func MakeControllerRef(parent *unstructured.Unstructured) *metav1.OwnerReference
 	}
 }
 
+func isControlledBy(obj, parent *unstructured.Unstructured) bool {
+	controllerRef := metav1.GetControllerOf(obj)
+	return controllerRef != nil && controllerRef.UID == parent.GetUID()
+}
+
 type ChildUpdateStrategy interface {
 	GetMethod(apiGroup, kind string) v1alpha1.ChildUpdateMethod
 }
@@ -237,6 +242,15 @@ func updateChildren(client *dynamicclientset.ResourceClient, updateStrategy Chil
 
 	for name, obj := range desired {
 		if ssaOptions.Strategy == ApplyStrategyServerSideApply {
+			// We always claim everything we apply, as Create does below:
+			// without a controller reference the child is neither
+			// garbage collected with the parent nor observed as ours.
+			if !isControlledBy(obj, parent) {
+				ownerRefs := obj.GetOwnerReferences()
+				ownerRefs = append(ownerRefs, *MakeControllerRef(parent))
+				obj.SetOwnerReferences(ownerRefs)
+			}
+
 			data, err := json.Marshal(obj)
 			if err != nil {
 				errs = append(errs, err)
